@@ -240,6 +240,11 @@ def main(ctx):
         cfg = {"kind": "dw", "data": data, "labels": labels, "lambda": lam, "lmax": lmax, "s": s}
         tag = "dw_%s_%s_lam%s_lmax%d_D%d_s%d" % (data, labels, lam, lmax, D, s)
         ctx.bounds[tag] = core.bfs(ctx, cfg, D, tag=tag)
+    # graded refinement towards a point: deeper histories (levels 5..7 in one corner, coarse elsewhere) with few events per state
+    for data, labels, lam, D in (("mixed", "frac", 0.01, 4 if q else 6), ("cluster", "none", 0.0, 3 if q else 5)):
+        cfg = {"kind": "dw", "data": data, "labels": labels, "lambda": lam, "lmax": 2, "s": 1, "towards": [[0.31, 0.8]]}
+        tag = "dw_graded_%s_%s_lam%s_D%d" % (data, labels, lam, D)
+        ctx.bounds[tag] = core.bfs(ctx, cfg, D, tag=tag)
     # grids WITH boundary points (position 0 is a real grid point in the large-grid index arithmetic)
     for data, labels, lam, lmax, D, s in [("mixed", "none", 0.01, 2, 2 if q else 3, 1), ("gridlines", "pm1", 0.0, 2, 1 if q else 2, 1)]:
         cfg = {"kind": "dw", "data": data, "labels": labels, "lambda": lam, "lmax": lmax, "s": s, "boundary": True}
